@@ -286,7 +286,12 @@ func parseInboundFragment(framePool FramePool, frame *Frame, message message) (*
 		return nil, err
 	}
 
-	fragment.checksumType = ChecksumType(rbuf.ReadSingleByte())
+	checksumType := ChecksumType(rbuf.ReadSingleByte())
+	if checksumType >= checksumCount {
+		// The type byte indexes the checksum pools, so it must be validated.
+		return nil, errUnknownChecksumType
+	}
+	fragment.checksumType = checksumType
 	fragment.checksum = rbuf.ReadBytes(fragment.checksumType.ChecksumSize())
 	fragment.contents = rbuf
 	fragment.onDone = func() {
